@@ -162,6 +162,9 @@ def counters_case(item):
     elif kind == "RunAfterDate":
         a = A.RunAfterDate(item["date"])
         ref = pd.Timestamp(item["date"])
+        if item.get("intraday"):
+            idx = pd.DatetimeIndex([pd.Timestamp(d) + pd.Timedelta(hours=h) for d in ("2019-12-30", "2019-12-31", "2020-01-02") for h in (10, 13, 16)])
+            t = Target(idx)
         for d in idx:
             t.now = d
             got = bool(a(t))
@@ -184,7 +187,7 @@ def counters_case(item):
                 t.now = d
                 got = bool(a(t))
                 n += 1
-                exp = (r == 0) and (i % nn == off)
+                exp = (r == 0) and i >= off and ((i - off) % nn == 0)
                 if got != exp:
                     V(exp, got, {"date": str(d), "ordinal": i, "call": r})
     return (n, 1, viols, len(viols))
@@ -257,12 +260,14 @@ def run(ctx):
     for rep in (1, 2):
         citems.append({"kind": "RunOnce", "repeat": rep})
         for n_ in range(1, nmax + 1):
-            for off in range(n_):
+            for off in range(0, 2 * n_ + 2):
                 citems.append({"kind": "RunEveryNPeriods", "n": n_, "offset": off, "repeat": rep})
         for ds in (["2019-12-31"], ["2020-01-02", "2020-01-07"], ["2020-01-01"], ["2019-12-30", "2020-01-09", "2022-01-01"], ["2020-01-07", "2019-12-31", "2020-01-03"], ["2020-01-08", "2020-01-08", "2019-12-30"]):
             citems.append({"kind": "RunOnDate", "dates": ds, "repeat": rep})
     for d in ("2019-12-29", "2019-12-30", "2020-01-01", "2020-01-02", "2020-01-09", "2020-02-01"):
         citems.append({"kind": "RunAfterDate", "date": d})
+    for d in ("2019-12-31 13:00", "2019-12-31 16:00", "2019-12-31", "2019-12-30 11:30", "2020-01-02 16:00"):
+        citems.append({"kind": "RunAfterDate", "date": d, "intraday": True})
     for n_ in range(0, nmax + 2):
         citems.append({"kind": "RunAfterDays", "n": n_})
     for item, (n, npat, viols, nv) in ctx.run(kind, MOD, "counters_case", citems, chunksize=4):
